@@ -221,7 +221,7 @@ SNIPPETS = [
     ("setext", "Setext title\n==="), ("setext2", "Setext title\nsecond line of it\n---"), ("ordered0", "0. zero\n1. one"), ("ordered_paren", "7) seven\n8) eight"), ("heading_bs", "# Windows drive C:\\"), ("heading_br", "## Heading with break\\\nnext"), ("bullet", "- item a\n- item b"), ("bullet_esc", "- 2\\. text in item\n- b"), ("ordered", "3. three\n4. four"),
     ("quote", "> quoted line"), ("code", "```\ncode\n```"), ("table", "| A | B |\n|---|---|\n| x | y |"), ("hr", "* * *"),
     ("def", "[ref]: http://example.com/x \"T\""), ("footnote", "[^n]: Note text."), ("html", "<div>inline html</div> text"),
-    ("hardbreak", "line one\\\nline two"), ("task", "- [ ] todo\n- [x] done"), ("alert", "> [!NOTE]\n> Body."), ("link", "See [ref] and [t](http://u.v \"ti\")."),
+    ("hardbreak", "line one\\\nline two"), ("task", "- [ ] todo\n- [x] done"), ("otask", "1. [x] done\n2. [ ] open\n\n   second paragraph"), ("startask", "* [ ] star\n+ [x] plus"), ("alert", "> [!NOTE]\n> Body."), ("link", "See [ref] and [t](http://u.v \"ti\")."),
     ("emph", "*em* **strong** `code` ~~del~~"), ("nested", "- a\n  - b\n\n    para in b"), ("digits", "1986\\. A year"),
     ("listfirst", "- - a\n\n  - b\n\n  para after inner"), ("olistfirst", "1. - x\n\n   - y\n2. z"),
 ]
